@@ -259,6 +259,13 @@ class PAI:
                 if k in st.val:
                     return (not st.val[k]), None
                 return None, (k, True, None)   # (key, negated, atom node)
+        if isinstance(e, ast.Compare) and len(e.ops) == 1 and isinstance(e.ops[0], (ast.IsNot, ast.NotIn)):
+            # canonical atom: the positive form (`a is b`, `a in b`); the fork refines on the positive atom
+            pos = ast.Compare(left=e.left, ops=[ast.Is() if isinstance(e.ops[0], ast.IsNot) else ast.In()], comparators=e.comparators)
+            t, a = self.truth(pos, st)
+            if t is not None:
+                return (not t), None
+            return None, a
         k = self.atom_key(e, st)
         if k in st.val:
             return st.val[k], None
